@@ -729,13 +729,23 @@ fn out_of_range_variants(rule: &Rule, extended: bool, rng: &mut Rng) -> Vec<(Str
 
 /// `Local` with `TZ=:/sim/f` under read chunking and EINTR must answer as the accessor does.
 fn public_route(bytes: &Arc<Vec<u8>>, z: Option<&Zone>, rng: &mut Rng, fired: &mut BTreeMap<String, u64>) -> Result<Option<String>, String> {
+    public_route_tz(Some(bytes), ":/sim/f", z, rng, fired)
+}
+
+/// `Local` with the given TZ value (and, if given, the file `/sim/f`) must answer as `z` does,
+/// or as UTC when there is no zone (the reader rejects the source and no system zone exists).
+fn public_route_tz(bytes: Option<&Arc<Vec<u8>>>, tz: &str, z: Option<&Zone>, rng: &mut Rng, fired: &mut BTreeMap<String, u64>) -> Result<Option<String>, String> {
     let utc = Zone::utc();
     let rejected = z.is_none();
     let z = z.unwrap_or(&utc);
     let mut fs = Fs::new();
-    fs.insert("/sim/f".into(), Inode { bytes: bytes.clone(), mtime_ns: 1, zone: 0 });
-    let st = State { clock_ns: 1_700_000_000_000_000_000, tz: Some(":/sim/f".into()), fs, sysname: None };
-    let world = SimWorld::new(st, vec![bytes.clone()], crate::plan::SEAM_CAP);
+    let mut pool = Vec::new();
+    if let Some(b) = bytes {
+        fs.insert("/sim/f".into(), Inode { bytes: b.clone(), mtime_ns: 1, zone: 0 });
+        pool.push(b.clone());
+    }
+    let st = State { clock_ns: 1_700_000_000_000_000_000, tz: Some(tz.to_string()), fs, sysname: None };
+    let world = SimWorld::new(st, pool, crate::plan::SEAM_CAP);
     let mut w = Worker::spawn(&world);
     let mut faults = ConvFaults::default();
     faults.chunk = *rng.pick(&[0usize, 1, 2, 3, 5, 16, 31, 32, 33, 64, 1000]);
@@ -771,9 +781,10 @@ fn public_route(bytes: &Arc<Vec<u8>>, z: Option<&Zone>, rng: &mut Rng, fired: &m
         }
         if g != want {
             return Ok(Some(format!(
-                "{:?}(t={}) via TZ=:/sim/f (chunk {}, EINTR at {:?}) returned {:?}, {} answers {:?}",
+                "{:?}(t={}) via TZ={:?} (chunk {}, EINTR at {:?}) returned {:?}, {} answers {:?}",
                 api,
                 t,
+                tz,
                 faults.chunk,
                 faults.eintr_at,
                 g,
@@ -1037,7 +1048,35 @@ pub fn shard(part: Part, seed: u64, tier: &str, from: u64, to: u64, out: &str) -
                         }
                     };
                     *sink.sh.fired.entry(kind.into()).or_insert(0) += 1;
-                    sink.eval(string_input(&b, extended, format!("TZ string {:?} after {}: {:?}", s, kind, String::from_utf8_lossy(&b)), false), &b, &mut rng);
+                    let swhat = format!("TZ string {:?} after {}: {:?}", s, kind, String::from_utf8_lossy(&b));
+                    sink.eval(string_input(&b, extended, swhat.clone(), false), &b, &mut rng);
+                    // a sample of the mutated strings also goes into TZ itself: Local must use the
+                    // rule if the reader accepts it and fall back to UTC (no system zone here)
+                    // otherwise - and never panic. Strings with surrounding whitespace, a leading
+                    // colon or the literal name "localtime" are left out (the statement is silent
+                    // on them or gives them another meaning).
+                    if rng.chance(1, 6) {
+                        if let Ok(text) = std::str::from_utf8(&b) {
+                            let plain = !text.is_empty()
+                                && text.trim_matches(|c: char| c.is_ascii_whitespace()) == text
+                                && !text.starts_with(':')
+                                && text != "localtime";
+                            if plain {
+                                let z = guarded(|| Zone::from_posix_rule(text.as_bytes(), false)).ok().and_then(|r| r.ok());
+                                let offs_ok = z.as_ref().map_or(true, |z| debug_numbers(&z.debug()).1.iter().all(|o| o.abs() < 86_400));
+                                if offs_ok {
+                                    sink.sh.tally.public_route_checks += 1;
+                                    *sink.sh.fired.entry("public_route_on_tz_string".into()).or_insert(0) += 1;
+                                    let input = Input { mode: "tzstr".into(), hex: hex(&b), expect: Expect::Survive, expected_debug: None, what: swhat.clone() };
+                                    match public_route_tz(None, text, z.as_ref(), &mut rng, &mut sink.sh.fired) {
+                                        Ok(None) => {}
+                                        Ok(Some(d)) => sink.problem(Problem { class: "public-route-differs".into(), detail: d, input }),
+                                        Err(e) => sink.problem(Problem { class: "public-route-hang".into(), detail: e, input }),
+                                    }
+                                }
+                            }
+                        }
+                    }
                 }
                 // constructed out-of-range fields: rejected
                 for (bad, kind) in out_of_range_variants(&rule, extended, &mut rng) {
